@@ -440,6 +440,7 @@ extern "C" int engineexport_initialize_graph (
 
 extern "C" int engineexport_run(int breathe_dt)
     {
+    if(global_algo_freed) return 0;
     bool unfinished = true;
     auto t0 = std::chrono::system_clock::now();
     for(;;)
@@ -455,6 +456,7 @@ extern "C" int engineexport_run(int breathe_dt)
 
 extern "C" int engineexport_iterate_n(int n_iterations)
     {
+    if(global_algo_freed) return 0;
     bool unfinished = true;
     for(int i=0; i<n_iterations; i++)
         {
@@ -468,6 +470,7 @@ extern "C" int engineexport_iterate_n(int n_iterations)
 
 extern "C" int engineexport_iterate()
     {
+    if(global_algo_freed) return 0;
     bool unfinished = true;
     if      (global_space_type == 0) unfinished = global_grid_algo->Iterate();
     else if (global_space_type == 1) unfinished = global_graph_algo->Iterate();
@@ -476,6 +479,7 @@ extern "C" int engineexport_iterate()
 
 extern "C" double engineexport_get_progress()
     {
+    if(global_algo_freed) return 0;
     //return t/tmax
     double progress=0;
     if      (global_space_type == 0) progress = global_grid_algo->GetProgress();
@@ -485,6 +489,7 @@ extern "C" double engineexport_get_progress()
 
 extern "C" int engineexport_get_trajectory(double * trajectory_data)
     {
+    if(global_algo_freed) return 0;
     if (global_space_type == 0)
       {
 
@@ -531,6 +536,7 @@ extern "C" int engineexport_get_trajectory(double * trajectory_data)
 
 extern "C" int engineexport_get_state(double * state_data)
     {
+    if(global_algo_freed) return 0;
     if (global_space_type == 0)
       {
       int n_species = global_grid_algo->NSpecies();
@@ -571,6 +577,7 @@ extern "C" int engineexport_get_state(double * state_data)
 
 extern "C" double engineexport_get_time()
     {
+    if(global_algo_freed) return 0;
     if (global_space_type == 0)
       return global_grid_algo->GetT();
     else
@@ -579,6 +586,7 @@ extern "C" double engineexport_get_time()
 
 extern "C" int engineexport_get_tsample(double * t_sample)
     {
+    if(global_algo_freed) return 0;
     if (global_space_type == 0)
       {
       std::vector<double> & t_sample_vec = global_grid_algo->GetSampledT();
@@ -610,6 +618,7 @@ extern "C" int engineexport_get_tsample(double * t_sample)
 
 extern "C" int engineexport_get_nsamples()
     {
+    if(global_algo_freed) return 0;
     if (global_space_type == 0)
       return global_grid_algo->NSamples();
     else
@@ -618,6 +627,7 @@ extern "C" int engineexport_get_nsamples()
 
 extern "C" int engineexport_sample()
     {
+    if(global_algo_freed) return 0;
     if (global_space_type == 0)
       global_grid_algo->Sample();
     else
